@@ -12,7 +12,7 @@ pub fn meta(tier: &str) -> CheckMeta {
     let (n, cap) = params(tier);
     CheckMeta {
         id: "C14", level: "model_checking",
-        rule: "E-box over token sets x strings. Token menu over {a,b,c}: literals a ab abc b bc; patterns a+ ab* [ab]+ a|bc a?b a{2,3} [^a\\s]+ \\p{L}+; each plain or wrapped in token(prec(p,.)) with p in {-1,1}. Families: (i) token soup repeat(choice(t..)) for every ordered pair of menu variants (39x39) and every ordered triple of distinct plain items; (ii) two-context grammars choice(seq('x',A,B), seq('y',C)) for every ordered triple of distinct plain items (validity depends on the parse state); (iii) keyword grammars (word token [a-c]+ with keywords ab, abc, optional third keyword); each with extras in {none, space}. Inputs: every string over {a,b,c,space} (plus e-acute where a Unicode class is present) up to the length bound. Oracle: a reference tokenizer built on the `regex` crate (independent of the generator's NFA), applying the documented order among the tokens valid at the position: lexical precedence, longest match, string over pattern, earlier definition; keyword only if the whole word equals it. If the reference tokenization exists, the parse must be error-free with exactly that leaf sequence (kinds and byte ranges); otherwise the parse must report an error. Non-trivial = (grammar, input) pairs where at least two tokens match at some position.",
+        rule: "E-box over token sets x strings. Token menu over {a,b,c}: literals a ab abc b bc; patterns a+ ab* [ab]+ a|bc a?b a{2,3} [^a\\s]+ \\p{L}+; each plain or wrapped in token(prec(p,.)) with p in {-1,1}. Families: (i) token soup repeat(choice(t..)) for every ordered pair of menu variants (39x39) and every ordered triple of distinct plain items; (ii) two-context grammars choice(seq('x',A,B), seq('y',C)) for every ordered triple of distinct plain items (validity depends on the parse state); (iii) keyword grammars (word token [a-c]+ with keywords ab, abc, optional third keyword); each with extras in {none, space}; (iv) regex structure: every regular expression of nesting depth <= 2 over the atoms a, b, [ab] with postfix ? * + {0,1} {0,2} {1,2} {2} {2,}, concatenation and alternation, plus the depth-3 shapes (atom next to a quantified atom) combined with every small expression (quick) or every expression of depth <= 1 (thorough); those matching the empty string are removed, sixteen per grammar behind distinct prefix characters, against every string over {a,b}: accepted exactly when the `regex` crate matches the whole string. Inputs: every string over {a,b,c,space} (plus e-acute where a Unicode class is present) up to the length bound. Oracle: a reference tokenizer built on the `regex` crate (independent of the generator's NFA), applying the documented order among the tokens valid at the position: lexical precedence, longest match, string over pattern, earlier definition; keyword only if the whole word equals it. If the reference tokenization exists, the parse must be error-free with exactly that leaf sequence (kinds and byte ranges); otherwise the parse must report an error. Non-trivial = (grammar, input) pairs where at least two tokens match at some position.",
         assumptions: vec!["the documented five-rule order (docs/src/creating-parsers/3-writing-the-grammar.md, 'Conflicting tokens') is the specification".into()],
         exhaustive: true,
         bounds: json!({"max_input_chars": n, "grammars_cap_per_family": cap}),
@@ -24,7 +24,7 @@ pub fn params(tier: &str) -> (usize, usize) { if tier == "mini" { (3, 20) } else
 #[derive(Clone, Debug)]
 pub struct TokDef { pub name: String, pub expr: Value, pub is_string: bool, pub re: String, pub prec: i32, pub src: String }
 
-fn menu() -> Vec<(&'static str, bool)> {
+pub fn menu() -> Vec<(&'static str, bool)> {
     vec![("a", true), ("ab", true), ("abc", true), ("b", true), ("bc", true),
          ("a+", false), ("ab*", false), ("[ab]+", false), ("a|bc", false), ("a?b", false), ("a{2,3}", false), ("[^a\\s]+", false), ("\\p{L}+", false)]
 }
@@ -97,6 +97,20 @@ pub fn grammars(tier: &str) -> Vec<LexGrammar> {
         let alphabet = if space { vec!["a", "b", "c", " "] } else { vec!["a", "b", "c"] };
         kws.push(LexGrammar { id: g.name.clone(), g, toks, kind: "keyword", space_extra: space, alphabet });
     } }
+    // (iv) regex structure: every expression of nesting depth <= 2 over the atoms a, b, [ab] with the postfix operators
+    // ? * + {0,1} {0,2} {1,2} {2} {2,} and the binary operators concatenation and alternation; sixteen of them per grammar,
+    // each valid only after its own prefix character, so they never compete: the token after prefix k must match exactly
+    // the strings the `regex` crate matches in full.
+    let structs: Vec<LexGrammar> = {
+        let res = structure_regexes(tier == "thorough");
+        res.chunks(STRUCT_PREFIXES.len()).enumerate().map(|(gi, chunk)| {
+            let toks: Vec<TokDef> = chunk.iter().enumerate().map(|(i, r)| TokDef { name: format!("t{}", i), expr: pat(r), is_string: false, re: r.clone(), prec: 0, src: r.clone() }).collect();
+            let mut g = G::new(&format!("lxs{}_{}", if tier == "thorough" { "t" } else { "q" }, gi)).rule("source", choice(toks.iter().enumerate().map(|(i, t)| seq(vec![s(STRUCT_PREFIXES[i]), sym(&t.name)])).collect()));
+            for t in &toks { g = g.rule(&t.name, t.expr.clone()); }
+            g = g.extras(vec![]);
+            LexGrammar { id: g.name.clone(), g, toks, kind: "structure", space_extra: false, alphabet: vec!["a", "b"] }
+        }).collect()
+    };
     let pick = |v: Vec<LexGrammar>| -> Vec<LexGrammar> {
         if cap == 0 || v.len() <= cap { return v; }
         let step = v.len() as f64 / cap as f64;
@@ -108,6 +122,53 @@ pub fn grammars(tier: &str) -> Vec<LexGrammar> {
     out.extend(pick(triples));
     out.extend(pick(ctx2));
     out.extend(kws);
+    out.extend(structs);
+    out
+}
+
+pub const STRUCT_PREFIXES: [&str; 16] = ["0", "1", "2", "3", "4", "5", "6", "7", "8", "9", "x", "y", "z", "u", "v", "w"];
+
+/// the regex-structure box of family (iv), without the expressions that match the empty string (the generator rejects those)
+pub fn structure_regexes(full: bool) -> Vec<String> {
+    #[derive(Clone)]
+    enum Re { Atom(&'static str), Un(Box<Re>, &'static str), Cat(Box<Re>, Box<Re>), Alt(Box<Re>, Box<Re>) }
+    // binding strength: Alt 0 < Cat 1 < Un 2 < Atom 3
+    fn show(r: &Re, min: u8) -> String {
+        let (txt, lvl) = match r {
+            Re::Atom(a) => (a.to_string(), 3),
+            Re::Un(x, op) => (format!("{}{}", show(x, 3), op), 2),
+            Re::Cat(a, b) => (format!("{}{}", show(a, 1), show(b, 2)), 1),
+            Re::Alt(a, b) => (format!("{}|{}", show(a, 0), show(b, 1)), 0),
+        };
+        if lvl < min { format!("({})", txt) } else { txt }
+    }
+    let atoms: Vec<Re> = ["a", "b", "[ab]"].iter().map(|a| Re::Atom(a)).collect();
+    let ops = ["?", "*", "+", "{0,1}", "{0,2}", "{1,2}", "{2}", "{2,}"];
+    let cat = |a: &Re, b: &Re| Re::Cat(Box::new(a.clone()), Box::new(b.clone()));
+    let alt = |a: &Re, b: &Re| Re::Alt(Box::new(a.clone()), Box::new(b.clone()));
+    // S1 = quantified atoms, S2 = binary over atoms, S3 = an atom next to a quantified atom
+    let s1: Vec<Re> = atoms.iter().flat_map(|a| ops.iter().map(move |op| Re::Un(Box::new(a.clone()), op))).collect();
+    let mut s2: Vec<Re> = vec![];
+    for a in &atoms { for b in &atoms { s2.push(cat(a, b)); s2.push(alt(a, b)); } }
+    let mut s3: Vec<Re> = vec![];
+    for a in &atoms { for q in &s1 { s3.push(cat(a, q)); if full { s3.push(cat(q, a)); } } }
+    let small: Vec<Re> = atoms.iter().chain(s1.iter()).cloned().collect();
+    let l1: Vec<Re> = small.iter().chain(s2.iter()).cloned().collect();
+    let mut all: Vec<Re> = l1.clone();
+    for x in l1.iter().skip(atoms.len()) { for op in ops { all.push(Re::Un(Box::new(x.clone()), op)); } }
+    for a in &l1 { for b in &l1 { all.push(cat(a, b)); all.push(alt(a, b)); } }
+    // depth 3: S3 beside a small expression (quick) or beside anything of depth <= 1 and S3 itself (thorough)
+    let partners: Vec<Re> = if full { l1.iter().chain(s3.iter()).cloned().collect() } else { small.clone() };
+    for x in &s3 { for y in &partners { all.push(cat(x, y)); all.push(alt(x, y)); all.push(cat(y, x)); all.push(alt(y, x)); } }
+    if full { for x in &s3 { for op in ops { all.push(Re::Un(Box::new(x.clone()), op)); } } }
+    let mut seen = std::collections::HashSet::new();
+    let mut out = vec![];
+    for r in &all {
+        let t = show(r, 0);
+        if !seen.insert(t.clone()) { continue; }
+        if Regex::new(&format!("^(?:{})$", t)).expect("structure regex compiles").is_match("") { continue; }
+        out.push(t);
+    }
     out
 }
 
@@ -159,6 +220,17 @@ fn reference(lg: &LexGrammar, rl: &RefLexer, text: &str) -> (Option<Vec<(String,
                 pos += l;
             }
             (Some(out), contested)
+        }
+        "structure" => {
+            // <prefix k> t_k, nothing else: t_k must match the whole rest
+            if text.is_empty() { return (None, false); }
+            let Some(k) = STRUCT_PREFIXES.iter().position(|p| text.starts_with(p)) else { return (None, false) };
+            if k >= lg.toks.len() { return (None, false); }
+            out.push((STRUCT_PREFIXES[k].to_string(), 0, 1));
+            match rl.longest(k, text, 1) {
+                Some(l) if 1 + l == text.len() => { out.push((lg.toks[k].name.clone(), 1, text.len())); (Some(out), true) }
+                _ => (None, false),
+            }
         }
         "context" => {
             // x t0 t1 | y t2
@@ -212,7 +284,7 @@ pub fn check_grammar(lg: &LexGrammar, maxlen: usize, res: &mut ShardResult) {
     let rl = RefLexer::new(&lg.toks);
     let mut parser = Parser::new();
     parser.set_language(&l.language).unwrap();
-    let prefixes: Vec<&str> = if lg.kind == "context" { vec!["x", "y"] } else { vec![""] };
+    let prefixes: Vec<&str> = if lg.kind == "context" { vec!["x", "y"] } else if lg.kind == "structure" { STRUCT_PREFIXES[..lg.toks.len()].to_vec() } else { vec![""] };
     for len in 0..=maxlen {
         let mut stop = false;
         let mut run = |ix: &[usize], res: &mut ShardResult| {
@@ -257,7 +329,7 @@ pub fn worker(ctx: &Ctx, res: &mut ShardResult) {
 pub fn replay(case: &Value) -> Vec<String> {
     let case = if case.get("kind").and_then(|k| k.as_str()) == Some("crash") { &case["case"] } else { case };
     let id = case["grammar_id"].as_str().unwrap_or("");
-    let Some(lg) = grammars("thorough").into_iter().find(|g| g.id == id) else { return vec![format!("unknown grammar {}", id)] };
+    let Some(lg) = grammars("thorough").into_iter().chain(grammars("quick")).find(|g| g.id == id) else { return vec![format!("unknown grammar {}", id)] };
     let mut r = ShardResult::new();
     check_grammar(&lg, 5, &mut r);
     r.violations.iter().map(|v| format!("{}: {}", v.fingerprint, v.what)).collect()
